@@ -26,7 +26,7 @@ EXHAUSTIVE = True
 RULE = (
     "A: {Geometry, Weighted, Extruded, Porous, ExtrudedPorous} x weight forms {scalar, ndarray, (Image for ExtrudedPorous: all 3x3 "
     "porosity/depth type pairs)} x shapes (1-D..3-D) x data container {ndarray, Image} x payload {scalar, vector, series, vector series} x "
-    "resolution {native, refined by every (fx,fy,..) in {1,2,3}^d, coarsened by every divisor tuple}; data = complete impulse basis + "
+    "resolution {native, refined by every (fx,fy,..) in {1,2,3}^d, coarsened by every divisor tuple, mixed (each axis refined by 2 or 3, coarsened by a divisor, or kept; at least one of each)}; data = complete impulse basis + "
     "pair combinations (1,1),(2,-3); plus normalize(img, ref). B: per geometry object every sequence of integrate() calls over "
     "{native, coarser, finer, other-coarser} x {array, Image} up to length 3 (thorough 5), and BFS over the geometry's hidden state to a "
     "fixpoint. Non-trivial = integrate call with non-zero data; distinct = distinct (geometry, weights, shape, payload, resolution) / "
@@ -202,11 +202,21 @@ def run_integrate(case, r):
     for f in divisor_tuples(shape):
         if any(x > 1 for x in f):
             resolutions.append(("coarse", f))
+    # mixed: every axis either refined (2, 3) or coarsened (a divisor), at least one of each;
+    # a factor is written +f for refinement and -f for coarsening
+    if dim >= 2:
+        per_axis = [[f for f in (2, 3)] + [-f for f in range(2, n + 1) if n % f == 0] + [1] for n in shape]
+        for f in itertools.product(*per_axis):
+            if any(x > 1 for x in f) and any(x < 0 for x in f):
+                resolutions.append(("mixed", f))
     for res, fac in resolutions:
+        if res == "mixed":
+            up = tuple(max(x, 1) for x in fac)
+            down = tuple(-x if x < 0 else 1 for x in fac)
         if res != "native" and array_weight and dim != 2:
             # documented restriction: must be refused, consistently, with ValueError
             g = fresh()
-            dshape = tuple(shape[a] * fac[a] for a in range(dim)) if res == "fine" else tuple(shape[a] // fac[a] for a in range(dim))
+            dshape = tuple(shape[a] * fac[a] for a in range(dim)) if res == "fine" else (tuple(shape[a] // fac[a] for a in range(dim)) if res == "coarse" else tuple(shape[a] * up[a] // down[a] for a in range(dim)))
             try:
                 g.integrate(np.ones(dshape + ps))
                 r.fail(f"C03/integrate/{wclass(wform)}/foreign-resolution-refusal/dim={dim}", "array weights at a foreign resolution are documented as 2-D only (ValueError)")
@@ -220,6 +230,9 @@ def run_integrate(case, r):
         elif res == "coarse":
             dshape = tuple(shape[a] // fac[a] for a in range(dim))
             ev = block_sum(effvol, fac)
+        elif res == "mixed":
+            dshape = tuple(shape[a] * up[a] // down[a] for a in range(dim))
+            ev = block_sum(refine(effvol, up) / float(np.prod(up)), down)
         else:
             dshape, ev = shape, effvol
         full = dshape + ps
